@@ -614,6 +614,13 @@ DetectV(gg, p) ==
                   V("C09", 0, "divergence-detected-late", <<p, pe.desyFirst, m, I>>))
           \o DetectV(gg, p + 1)
 
+\* C18: a spectator that stopped acknowledging (it is gone) has been disconnected by its host
+SilentSpecV(gg) ==
+  LET bad == {q \in 0..gg.N-1 : gg.isSpec[q] /\ ~gg.pr[q].alive /\ gg.pr[gg.host[q]].alive
+                                /\ ~gg.pr[gg.host[q]].lossy /\ gg.pr[gg.host[q]].evs[q][1] # "disc"}
+  IN IF bad = {} THEN <<>>
+     ELSE V("C18", 0, "silent-spectator-not-disconnected", <<CHOOSE q \in bad : TRUE>>)
+
 Update(gg, r) ==
   LET a == r.a IN
   IF Has(r, "r") /\ Has(r, "p") /\ a # "cfg" /\ IsPanic(r.r) THEN PanicLine(gg, r) ELSE
@@ -629,7 +636,9 @@ Update(gg, r) ==
                                 !.pr = [p \in 0..gg.N-1 |-> [gg.pr[p] EXCEPT !.mark = gg.pr[p].cur]]]
     [] a = "end"  -> LET g1 == IF Get(r, "faults_hit", 0) > 0 THEN Bump(gg, "runsWithPlannedFault", 1) ELSE gg
                          g2a == IF g1.N > 0 /\ g1.corrupt THEN AddViol(g1, DetectV(g1, 0)) ELSE g1
-                         g2 == IF g2a.N > 0 THEN AddViol(g2a, CutoffV(g2a)) ELSE g2a
+                         g2b == IF g2a.N > 0 THEN AddViol(g2a, CutoffV(g2a)) ELSE g2a
+                         g2 == IF g2b.N > 0 /\ Get(r, "silent_spectator_check", FALSE)
+                               THEN AddViol(g2b, SilentSpecV(g2b)) ELSE g2b
                      IN IF g2.N > 0 /\ g2.marked
                         THEN AddViol(Bump(g2, "progressChecked", 1), ProgressV(g2, 0)) ELSE g2
     [] a = "dlv"  -> Bump(gg, "delivered", 1)
